@@ -217,6 +217,7 @@ class HC_phi_comp(Contract):
     loops = _mk_phi_loops()
     use = {"pyoma2.functions.gen.MPD": "abstract", "pyoma2.functions.gen.MPC": "abstract"}
     generic_replay = False      # the table holds abstract vectors (the indicators are uninterpreted here): replay through a real run
+    bounded_driver = {"driver": "c09_run", "inputs": {"cls": "SSIdat", "seed": 0}}      # also the stand-in when the body leaves the subset
 
     def witness(self, o):
         """replay: a real SSIdat run on seeded data with the counter-model's two limits and every other criterion switched off"""
